@@ -667,6 +667,7 @@ def _r7(repo: Repo, ctx) -> None:
     ctx.floor('C02.R7', 3)
     propagation_rule(repo, ctx, 'C02.R7')
     _r7_rest(repo, ctx)
+    _r8(repo, ctx)
 
 
 def propagation_rule(repo: Repo, ctx, rule: str) -> None:
@@ -755,3 +756,61 @@ def _r7_rest(repo: Repo, ctx) -> None:
                f'`schemas`, `extras`) are invisible to the diff and their '
                f'objects are never created', f'{init.module.rel()}:'
                f'{l.lineno}', sample='exact module-name membership')
+
+
+
+def _r8(repo: Repo, ctx) -> None:
+    """C02.R8 nothing computed from the schema is parked in the command
+    context for later use.  A command tree rewrites the schema as it goes
+    (`schema = ...` after every step); `CommandContext.store_value` /
+    `get_value` keep values for the whole context.  A value that was derived
+    from the schema at one point and is read back at a later one (implicit
+    bases of a reference, ancestors, referrers) is stale as soon as a
+    command in between changed what it was derived from -- the diamond case:
+    the second parent gets the reference after the first computation.  Flags
+    and counters (constants) are fine."""
+    from ..shapes import derives_from
+    ctx.floor('C02.R8', 1)
+    n = 0
+    for modname in ('edb.schema.delta', 'edb.schema.referencing',
+                    'edb.schema.inheriting', 'edb.schema.pointers',
+                    'edb.schema.types', 'edb.schema.objtypes',
+                    'edb.schema.links', 'edb.schema.properties',
+                    'edb.schema.constraints', 'edb.schema.indexes',
+                    'edb.schema.functions', 'edb.schema.ordering'):
+        m = repo.modules.get(modname)
+        if m is None:
+            continue
+        for f in repo._funcs_of(m):
+            if f.parent is not None:
+                continue
+            for c in ast.walk(f.node):
+                if not (isinstance(c, ast.Call) and isinstance(
+                        c.func, ast.Attribute) and c.func.attr ==
+                        'store_value' and len(c.args) == 2):
+                    continue
+                if f.name == 'store_value':
+                    continue
+                n += 1
+                v = c.args[1]
+                names = {x.id for x in ast.walk(v) if isinstance(x, ast.Name)}
+                stale = not isinstance(v, ast.Constant) and (
+                    'schema' in names or derives_from(
+                        f.node, names, 'schema'))
+                kn = {x.id for x in ast.walk(c.args[0])
+                      if isinstance(x, ast.Name)}
+                if 'schema' in kn:
+                    stale = False
+                ctx.saw(f)
+                ctx.ob('C02.R8', f'{f.qualname.split(".", 3)[-1]}:'
+                       f'context-value={norm(c.args[0])[:40]}', not stale,
+                       f'{f.name} parks `{norm(v)[:50]}`, which is computed '
+                       f'from the schema, in the command context under '
+                       f'`{norm(c.args[0])[:50]}`: a later reader gets the '
+                       f'value of an earlier schema (with two parents '
+                       f'gaining the same reference one after the other, '
+                       f'the bases computed after the first are reused '
+                       f'after the second)', f'{m.rel()}:{c.lineno}',
+                       sample=norm(v)[:40])
+    if n < 1:
+        raise AnalysisError('C02.R8: no store_value site found')
